@@ -16,14 +16,16 @@ func genScaleDesc(p, u, s string, n int) string { return gen.ScaleDesc(p, u, s, 
 // construct describes one delimited HTML construct for the first-terminator
 // oracle of C17 (and as decoy workload for C02/C07).
 type construct struct {
-	name   string
-	ctx    int
-	lead   string                         // opener bytes before the token starts
-	inTok  string                         // opener bytes that belong to the token (doctype)
-	alpha  []string                       // body alphabet: the terminator bytes, NUL, filler, '<'
-	typ    int                            // expected token type
-	term   func(b string) (idx, tlen int) // index of first terminator in b and its length; idx<0 if none
-	reject func(b string) bool            // bodies that would select a different construct
+	name     string
+	ctx      int
+	lead     string                         // opener bytes before the token starts
+	inTok    string                         // opener bytes that belong to the token (doctype)
+	alpha    []string                       // body alphabet: the terminator bytes, NUL, filler, '<'
+	typ      int                            // expected token type
+	term     func(b string) (idx, tlen int) // index of first terminator in b and its length; idx<0 if none
+	reject   func(b string) bool            // bodies that would select a different construct
+	extra    []string                       // additional hand-picked bodies
+	noPrefix bool                           // the construct's lead must start at offset 0 (start-context constructs)
 }
 
 func idxTerm(t string) func(string) (int, int) {
@@ -60,7 +62,8 @@ var constructs = []construct{
 	{name: "comment", ctx: li.VerifH5CtxData, lead: "<!--", alpha: []string{"-", "!", ">", "\x00", "x"}, typ: tTagComment, term: commentTerm},
 	{name: "bang", ctx: li.VerifH5CtxData, lead: "<!", alpha: []string{">", "x", "-", "<", "["}, typ: tTagComment, term: idxTerm(">"),
 		reject: func(b string) bool { return strings.HasPrefix(b, "--") }},
-	{name: "pi", ctx: li.VerifH5CtxData, lead: "<?", alpha: []string{">", "x", "?", "<", "%"}, typ: tTagComment, term: idxTerm(">")},
+	{name: "pi", ctx: li.VerifH5CtxData, lead: "<?", alpha: []string{">", "x", "?", "<", "-"}, typ: tTagComment, term: idxTerm(">"),
+		extra: []string{"[CDATA[x]]>y>", "[CDATA[", "doctype x>y>", "DOCTYPE>", "--x>y-->z", "--", "-->", "%>x>", "xml?>"}},
 	{name: "doctype", ctx: li.VerifH5CtxData, lead: "<!", inTok: "doctype", alpha: []string{">", "x", " ", "<", "!"}, typ: tDocType, term: idxTerm(">")},
 	{name: "DocType", ctx: li.VerifH5CtxData, lead: "<!", inTok: "DocTYPE", alpha: []string{">", "x", " ", "<", "-"}, typ: tDocType, term: idxTerm(">")},
 	{name: "sq-embedded", ctx: li.VerifH5CtxData, lead: "<a b='", alpha: []string{"'", "\"", ">", "x", " "}, typ: tAttrValue, term: idxTerm("'")},
@@ -69,6 +72,13 @@ var constructs = []construct{
 	{name: "sq-context", ctx: li.VerifH5CtxSingleQuote, lead: "", alpha: []string{"'", "\"", ">", "x", "<"}, typ: tAttrValue, term: idxTerm("'")},
 	{name: "dq-context", ctx: li.VerifH5CtxDoubleQuote, lead: "", alpha: []string{"\"", "'", ">", "x", "<"}, typ: tAttrValue, term: idxTerm("\"")},
 	{name: "bq-context", ctx: li.VerifH5CtxBackQuote, lead: "", alpha: []string{"`", "'", ">", "x", "<"}, typ: tAttrValue, term: idxTerm("`")},
+	// a LATER quoted value when the analysis started inside a quoted value
+	{name: "sq-context-later-sq", ctx: li.VerifH5CtxSingleQuote, lead: "x' a='", alpha: []string{"'", "\"", ">", "x", " "}, typ: tAttrValue, term: idxTerm("'"), noPrefix: true},
+	{name: "dq-context-later-dq", ctx: li.VerifH5CtxDoubleQuote, lead: "x\" a=\"", alpha: []string{"\"", "'", ">", "x", " "}, typ: tAttrValue, term: idxTerm("\""), noPrefix: true},
+	{name: "bq-context-later-bq", ctx: li.VerifH5CtxBackQuote, lead: "x` a=`", alpha: []string{"`", "'", ">", "x", " "}, typ: tAttrValue, term: idxTerm("`"), noPrefix: true},
+	{name: "dq-context-later-sq", ctx: li.VerifH5CtxDoubleQuote, lead: "\"a='", alpha: []string{"'", "\"", ">", "x", "="}, typ: tAttrValue, term: idxTerm("'"), noPrefix: true},
+	{name: "sq-context-later-bq", ctx: li.VerifH5CtxSingleQuote, lead: "y'/b=`", alpha: []string{"`", "'", ">", "x", "/"}, typ: tAttrValue, term: idxTerm("`"), noPrefix: true},
+	{name: "unquoted-context-later-dq", ctx: li.VerifH5CtxNoQuote, lead: "x a=\"", alpha: []string{"\"", "'", ">", "x", " "}, typ: tAttrValue, term: idxTerm("\""), noPrefix: true},
 }
 
 var decoyPrefixes = []string{"", "xy", "'\" "}
@@ -86,6 +96,9 @@ func planDecoy(level int) []core.Unit {
 	}
 	var us []core.Unit
 	for ci, c := range constructs {
+		if len(c.extra) > 0 {
+			us = append(us, core.Unit{Gen: "decoy", Lo: 0, Hi: uint64(len(c.extra)), Arg: strconv.Itoa(ci) + ":extra"})
+		}
 		for l := 0; l <= L; l++ {
 			total := gen.Pow(len(c.alpha), l)
 			for _, u := range gen.RangeUnits("decoy", total, 30000, strconv.Itoa(ci)+":"+strconv.Itoa(l)) {
@@ -105,13 +118,18 @@ func genDecoy(w *core.Worker, u core.Unit, emit func(in string, ci int, meta str
 	c := constructs[ci]
 	var buf []byte
 	for i := u.Lo; i < u.Hi; i++ {
-		buf = gen.Enum(c.alpha, l, i, buf)
-		body := string(buf)
+		var body string
+		if p[1] == "extra" {
+			body = c.extra[i]
+		} else {
+			buf = gen.Enum(c.alpha, l, i, buf)
+			body = string(buf)
+		}
 		if c.reject != nil && c.reject(body) {
 			continue
 		}
 		for pi, pre := range decoyPrefixes {
-			if c.lead == "" && pi > 0 {
+			if (c.lead == "" || c.noPrefix) && pi > 0 {
 				break // context-mode constructs start at offset 0 by definition
 			}
 			emit(pre+c.lead+c.inTok+body, ci, strconv.Itoa(len(pre)))
